@@ -43,6 +43,13 @@ func (c *validatorListConstructor) buildList(node schema.Node) {
 		}
 	} else {
 		c.appendNodeValidators(node)
+
+		// A nullable object or array also admits the literal null.
+		if t := node.Type(); t == json.TypeObject || t == json.TypeArray {
+			if constr, ok := node.Constraint(constraint.NullableConstraintType).(constraint.BoolKeeper); ok && constr.Bool() {
+				c.list = append(c.list, newLiteralValidator(node, c.parent))
+			}
+		}
 	}
 }
 
